@@ -131,6 +131,7 @@ func newInst(s *vdrv.Scenario) vdrv.Instance {
 			panic(err)
 		}
 		in.win = w
+		in.tk.reads = nil // constructor readings do not belong to any controlled thread
 		return in
 	}
 	b := cb.NewCircuitBreakerBuilder().SetTicker(in.tk).SetFailureRateThreshold(c.thr).SetMinimumRequestThreshold(c.minreq).
@@ -144,6 +145,7 @@ func newInst(s *vdrv.Scenario) vdrv.Instance {
 		panic(err)
 	}
 	in.br = br
+	in.tk.reads = nil
 	return in
 }
 
@@ -460,7 +462,7 @@ func windowMonitor(s *vdrv.Scenario, cs []*call, in *inst) string {
 		}
 		var us, uf int64
 		for _, o := range cs {
-			if o == c || (o.op.Name != "ws" && o.op.Name != "wf") || o.inv > c.ret {
+			if (o.op.Name != "ws" && o.op.Name != "wf") || o.inv > c.ret {
 				continue
 			}
 			if evTime[o] >= t {
